@@ -20,6 +20,7 @@ RULE = ('(i) idempotence: expr_simp of a memo-free copy of expr_simp(e) must be 
         'str of lifted semantics and dump_id()/dump_mem() after emulating instruction blocks, computed in child processes with different '
         'PYTHONHASHSEED, must be equal. A case = (law, canonical tree or item id); non-trivial = the tree contains an AC node with >=2 '
         'distinct operands (ii), the simplifier changed the tree (i), or the item produced output in every process (iii).')
+RULE += ' Round 6: 19 operands carrying one, two or three symbols (sums and differences) lifted, simplified, rendered and emulated under every hash seed.'
 ASSUMPTIONS = ['the corpus generator is hash-seed independent (blake2b-derived RNG, sorted iteration in the harness)']
 
 HASH_SEEDS_QUICK = [0, 1, 2, 3, 7, 42, 12345]
@@ -211,7 +212,12 @@ def twins(w):
         ('op.operands', Op('-', x, y), Op('-', y, x)), ('op.op', Op('<<', x, y), Op('>>', x, y)), ('op.op2', Op('>>', x, y), Op('a>>', x, y)),
         ('op.last', Op('<<', x, y), Op('<<', x, z)), ('op.first', Op('<<', x, y), Op('<<', z, y)), ('op.arity', Op('-', x), Op('-', x, y)),
         ('op.const', Op('<<', x, I(1)), Op('<<', x, I(2))), ('op.rot', Op('<<<', x, I(1)), Op('>>>', x, I(1))),
-        ('id.name', x, ex.ExprId('xx', w)), ('id.case', x, ex.ExprId('X', w)), ('same', ex.ExprCond(c, x, y), ex.ExprCond(c, x, y)),
+        ('id.name', x, ex.ExprId('xx', w)), ('id.case', x, ex.ExprId('X', w)),
+        # names that a "natural" or normalising comparison would conflate: zero padding, digit runs, case, trailing characters
+        ('id.zero-pad', ex.ExprId('var_8', w), ex.ExprId('var_08', w)), ('id.zero-pad2', ex.ExprId('loc_1', w), ex.ExprId('loc_001', w)), ('id.zero-pad3', ex.ExprId('x7', w), ex.ExprId('x007', w)),
+        ('id.digits', ex.ExprId('r2', w), ex.ExprId('r10', w)), ('id.digits2', ex.ExprId('sym9', w), ex.ExprId('sym10', w)), ('id.underscore', ex.ExprId('a_b', w), ex.ExprId('ab', w)),
+        ('id.suffix', ex.ExprId('arg', w), ex.ExprId('arg_', w)), ('id.dot', ex.ExprId('L.1', w), ex.ExprId('L1', w)), ('id.space', ex.ExprId('v 1', w), ex.ExprId('v1', w)),
+        ('int.signed-twin', Op('*', x, I(3)), Op('*', x, I(irsem.mask(w) - 2))), ('same', ex.ExprCond(c, x, y), ex.ExprCond(c, x, y)),
         ('mem.size-via-slice', ex.ExprMem(p, w), ex.ExprSlice(ex.ExprMem(p, W), 0, w)),
     ]
     return out
